@@ -138,7 +138,38 @@ def gen_case(rng):
     spec = {"name": rng.choice(["a", "b"]), "regex": None, "dtype": dtype, "nullable": rng.random() < 0.3 and dtype != "int64",
             "unique": rng.random() < 0.2, "required": True, "coerce": False, "reportDup": "none",
             "checks": gen_checks(rng, dtype), "default": None}
-    return {"kind": kind, "spec": spec, "size": rng.choice([0, 1, 2, 3, 5])}
+    c = {"kind": kind, "spec": spec, "size": rng.choice([0, 1, 2, 3, 5])}
+    if kind == "frame" and rng.random() < 0.5:
+        # uniqueness declared at the dataframe level, or on a regex column (names generated by the strategy)
+        c["frame_variant"] = rng.choice(["frame-unique", "regex-unique"])
+        spec["unique"] = c["frame_variant"] == "regex-unique"
+        spec["nullable"] = dtype != "int64"
+        c["size"] = rng.choice([2, 3, 5])
+    return c
+
+
+def base_sweep():
+    """every in_range inclusivity combination as the first (base) check, and dataframe-level / regex uniqueness on
+    nullable columns: the branches a random chain reaches rarely"""
+    out = []
+    for dtype, mk in (("float64", lambda i: A.vflt(4 * i)), ("int64", A.vint)):
+        for inc_lo in (False, True):
+            for inc_hi in (False, True):
+                for kind in ("series", "column", "index", "frame"):
+                    chk = {"b": {"inRange": {"lo": mk(1), "hi": mk(3), "incLo": inc_lo, "incHi": inc_hi}}, "ignoreNa": True}
+                    if dtype == "int64" and not (inc_lo or inc_hi):
+                        chk["b"]["inRange"]["hi"] = mk(4)
+                    out.append({"kind": kind, "size": 3, "sweep": True,
+                                "spec": {"name": "a", "regex": None, "dtype": dtype, "nullable": False, "unique": False,
+                                         "required": True, "coerce": False, "reportDup": "none", "checks": [chk],
+                                         "default": None}})
+    for variant in ("frame-unique", "regex-unique"):
+        for dtype in ("float64", "str"):
+            out.append({"kind": "frame", "size": 5, "sweep": True, "frame_variant": variant,
+                        "spec": {"name": "a", "regex": None, "dtype": dtype, "nullable": True,
+                                 "unique": variant == "regex-unique", "required": True, "coerce": False,
+                                 "reportDup": "none", "checks": [], "default": None}})
+    return out
 
 
 def build(case):
@@ -157,6 +188,10 @@ def build(case):
     if case["kind"] == "column":
         return pa.Column(name=spec["name"], **kw)
     other = pa.Column(int, pa.Check.ge(0))
+    if case.get("frame_variant") == "frame-unique":
+        return pa.DataFrameSchema({spec["name"]: pa.Column(**kw), "zz": other}, unique=[spec["name"]])
+    if case.get("frame_variant") == "regex-unique":
+        return pa.DataFrameSchema({"^" + spec["name"] + "_[0-9]$": pa.Column(regex=True, **kw), "zz": other})
     return pa.DataFrameSchema({spec["name"]: pa.Column(**kw), "zz": other})
 
 
@@ -166,6 +201,8 @@ def elements_of(case, draw):
         return draw.tolist()
     if case["kind"] == "index":
         return list(draw)
+    if case.get("frame_variant") == "regex-unique":
+        return [x for col in draw.columns if col != "zz" for x in draw[col].tolist()]
     return draw[spec["name"]].tolist()
 
 
@@ -308,6 +345,7 @@ def run(tier, replay=None):
     sentinel_pass(rep)
     cold_start(rep)
     n, k = (110, 4) if tier == "quick" else (5000, 20)
+    run_schemas(rep, base_sweep(), 3 * k)
     run_schemas(rep, corpus_cases(PROP) + [gen_case(rng) for _ in range(n)], k)
     return rep.finish(
         rule="sentinel strategies for each of the 14 built-in check strategies (chained onto sampled_from([good, bad]) and "
